@@ -421,7 +421,7 @@ def stream_target(ctx: Ctx) -> None:
 
 def stream_colorize(ctx: Ctx) -> None:
     reqs, impls, pay = [], [], []
-    n_rand = 6000 if ctx.quick else 120000
+    n_rand = 4500 if ctx.quick else 120000
     n_struct = 3000 if ctx.quick else 60000
     texts: List[Tuple[str, bool, str]] = []
     for _ in range(n_rand):
@@ -1273,6 +1273,7 @@ class Ser:
                         body = body[:1] + [("w", "wallabyvalue:"), ("w", "dingonumber")] + body[1:] + [("w", "that"), ("w", "was"), ("w", "computed")]
                         lines.extend(self.wrap(body, "", "", w, width=300))
                         e["type"] = None
+                        e["freeform_line"] = True
                         self.flags.add("numpy-free-form-returns-with-colon")
                     else:
                         lines.append(f["type"] or "object")
@@ -1683,6 +1684,12 @@ def oracle_document(ctx: Ctx, fmt: str, doc, ser, full: str, src: str, r) -> Non
                 altered = None          # the row is the other field of the same name: this one is not displayed at all
             if where is None and altered is not None and not in_admonition(k, words, adm):
                 merged = fmt == "numpy" and "wallabyvaluedingonumber" in altered[1] and "wallabyvalue:" in words
+                if fmt == "numpy" and f.get("freeform_line") and [w.strip("*") for w in altered[1]] == words and altered[1] != words:
+                    # `_escape_args_and_kwargs` is applied to the whole free-form line: a `*` that follows ", " is escaped
+                    ctx.fail("numpy:free-form-returns-emphasis-after-comma-shown-raw", {**inp, "field": [k, arg, words], "shown": altered[1]},
+                             "numpy: inline emphasis that follows ', ' in a free-form Returns/Yields line is shown with its asterisks")
+                    ctx.count("field:%s:%s:ALTERED" % (k, owner_kind))
+                    continue
                 ctx.fail("numpy:free-form-returns-colon-merges-words" if merged else f"field:text-altered:{k}:{fmt}", {**inp, "field": [k, arg, words], "shown": altered[1]},
                          f"{fmt}: the entry of field {f['tag']} {arg or ''} under '{altered[0]}' does not show the field's own words")
                 ctx.count("field:%s:%s:ALTERED" % (k, owner_kind))
@@ -2344,7 +2351,7 @@ def check_document(ctx: Ctx, doc, nested: bool, i: int, tag: str = "doc") -> Non
 
 
 def stream_documents(ctx: Ctx) -> None:
-    n = 300 if ctx.quick else 6000
+    n = 250 if ctx.quick else 6000
     gen = DocGen(ctx.rng)
     for i in range(n):
         doc = gen.document()
@@ -2412,6 +2419,8 @@ def corpus_documents() -> List[Dict[str, Any]]:
     docs.append(dict(base, owner="function", body=[("section", W("Zebratitle", "overview"), [("para", W("Bodyword", "one", "two"))], 0)], fields=[]))
     docs.append(dict(base, owner="function", body=[("para", W("Doc"))], fields=[fld("see", body=W("Numbatdescription", "shared", "by", "both")),
                                                                                fld("return", freeform=True, body=W("The", "computed", "result"))]))
+    docs.append(dict(base, owner="function", body=[("para", W("Doc"))],
+                fields=[fld("yield", freeform=True, body=[("w", "Value"), ("p", ("w", "tree"), "(", ","), ("m", "italic", W("sp0", "foo"))])]))
     docs.append(dict(base, owner="class", body=[("para", W("Doc"))], fields=[fld("ivar", "meth", body=W("Platypusvolume", "in", "litres"))]))
     docs.append(dict(base, owner="module", body=[("para", W("Doc"))], fields=[fld("var", "f", body=W("Documented", "as", "variable")), fld("var", "K", body=W("Also", "a", "class"))]))
     for level in ("module", "class", "instance"):
